@@ -1797,7 +1797,8 @@ def gen_restore_stmt(node, code, codegen):
     if target:
         label_index = code.get_data_label_index(target)
     else:
-        label_index = -1
+        # rewind to the first item of the first DATA statement
+        label_index = 0
 
     code.add(
         ('push%', label_index),
